@@ -43,9 +43,11 @@ package main
 //	                               the same with a storage fault: the first K commits made from the worker goroutine
 //	                               fail (rolled back) - the task is retried; the follower must have been resumed each time
 //	                                                                                               -> done K | TIMEOUT … | nofault
+//	pfill K TAG | fullq I1;…;In retry:B | fullq I1;…;In batches     see eng_proto_fullq.go
 
 import (
 	"fmt"
+	"math/rand"
 	"os"
 	"path/filepath"
 	"runtime"
@@ -208,6 +210,9 @@ type protoExec struct {
 	nbc     int
 	hangs   int
 	dead    bool // after a HANG / PANIC the environment is abandoned; ops answer "dead" until the next reset
+	// eng_proto_fullq.go
+	nfill    int
+	imported map[string]bool // throw-away wallets already imported through the API
 }
 
 func (x *protoExec) env() *WEnv {
@@ -218,6 +223,7 @@ func (x *protoExec) env() *WEnv {
 			e.wrapDB = func(d mwdb.DB) mwdb.DB { return &protoGateDB{inner: d, g: g} }
 		})
 		x.ext = map[string]string{}
+		x.imported = map[string]bool{}
 	}
 	return x.e
 }
@@ -234,6 +240,7 @@ func (x *protoExec) Reset() {
 	}
 	x.e.reset()
 	x.ext = map[string]string{}
+	x.imported = map[string]bool{}
 }
 
 // abandon drops an environment whose goroutines may still be alive (after a HANG the database stays open
@@ -288,6 +295,14 @@ func (x *protoExec) Exec(a []string) string {
 			return "bad-op"
 		}
 		return x.live(a[1], a[2], a[3], k)
+	case a[0] == "fullq" && len(a) == 3: // eng_proto_fullq.go
+		return x.fullQueue(strings.Split(a[1], ";"), a[2])
+	case a[0] == "pfill" && len(a) == 3:
+		k, err := strconv.Atoi(a[1])
+		if err != nil || k < 0 || k > 5000 {
+			return "bad-op"
+		}
+		return x.pfill(k, a[2])
 	case a[0] == "restart" && len(a) == 1:
 		if x.started {
 			return "bad-op"
@@ -693,6 +708,15 @@ func genProto(g *Gen) {
 	for _, t := range []string{"remove", "import"} {
 		scs = append(scs, sc{t, "handler:begin"}, sc{t, "blocks:3"})
 	}
+	// the queue filled to the accept limit while the task in hand is re-queued (eng_proto_fullq.go): deterministic, cheap
+	// (own random source derived from the seed: the histories below are the same as without these)
+	saved := g.Rng
+	g.Rng = rand.New(rand.NewSource(g.Seed*1000003 + 2003))
+	for i := 0; i < g.Scale(1, 4); i++ {
+		genProtoFullQueue(g, "retry")
+		genProtoFullQueue(g, "batches")
+	}
+	g.Rng = saved
 	// first of all: the placement whose outcome depends on the follower's random select, repeated inside one
 	// op (8 attempts: a skeleton that can hang there with probability 1/2 per attempt is caught with 1 - 2^-8)
 	for i := 0; i < g.Scale(1, 3); i++ {
